@@ -17,7 +17,8 @@ RULE = ("Hypothesis-generated template-conformant messages: template name (sampl
         "of the 20 variable types (boundary-biased ints, all finite/inf floats at wire width incl. -0.0, arbitrary and "
         "text-shaped bytes incl. NULs/non-UTF8, str values), flags incl. undefined bits, packet id, 0..255 acks, 0..255 "
         "extra bytes, trailing-block omission; profile `fill`: random subsets of variables left unset in default-filled "
-        "blocks.  Non-trivial = at least one block instance with a variable; distinct by full case content.")
+        "blocks; each decoded-but-unparsed message additionally gets other extra header bytes and is sent on.  "
+        "Non-trivial = at least one block instance with a variable; distinct by full case content.")
 ASSUMPTIONS = [
     "independent reference encoder in /verif (struct formats per variable type written from the template format) defines the expected datagram",
     "zero-coded bodies are kept under the decoder's documented 0x3000 expansion cap (larger bodies are generated unflagged)",
